@@ -77,11 +77,11 @@ struct SimHeap {
     bool armedReallocOnly;      // the one-shot request-size check of a realloc op waits for the platform realloc (a bookkeeping node may be allocated first)
     bool reallocZeroFrees;      // realloc(p, 0) releases p and answers NULL (glibc) instead of handing out a zero-size block
     size_t userRequest;          // size of the user request in flight (0 = none): a platform request below it is refused
-    bool undersized; size_t undersizedGot, undersizedWanted; bool armed; bool nodePassed; bool limitHit;
+    bool undersized; size_t undersizedGot, undersizedWanted; bool armed; bool nodePassed; bool limitHit; int firedNull;      /* injected NULL answers since the operation under way began */
     bool dirty; bool active;
     long foreignFrees;
     char* watchFree; size_t watchSize, watchLeft; uint64_t watchPat; bool watchSeen;
-    SimHeap() : arena(0), cap(0), top(0), prevTop(0), residue(-1), rng(1), mallocCalls(0), reallocCalls(0), freeCalls(0), failMallocIn(-1), failReallocIn(-1), userRequest(0), undersized(false), undersizedGot(0), undersizedWanted(0), armed(false), nodePassed(false), limitHit(false), dirty(true), active(false), foreignFrees(0), watchFree(0), watchSize(0), watchLeft(0), watchPat(0), watchSeen(false) {}
+    SimHeap() : arena(0), cap(0), top(0), prevTop(0), residue(-1), rng(1), mallocCalls(0), reallocCalls(0), freeCalls(0), failMallocIn(-1), failReallocIn(-1), userRequest(0), undersized(false), undersizedGot(0), undersizedWanted(0), armed(false), nodePassed(false), limitHit(false), firedNull(0), dirty(true), active(false), foreignFrees(0), watchFree(0), watchSize(0), watchLeft(0), watchPat(0), watchSeen(false) {}
     void init() {
         if (arena) return;
         cap = (size_t)512 << 20;
@@ -107,7 +107,7 @@ struct SimHeap {
     void* alloc(size_t n, bool countIt = true) {
         if (countIt) {
             mallocCalls++;
-            if (failMallocIn == 0) { failMallocIn = -1; armed = false; fired("platform_malloc_null"); return 0; }
+            if (failMallocIn == 0) { failMallocIn = -1; armed = false; firedNull++; fired("platform_malloc_null"); return 0; }
             if (failMallocIn > 0) failMallocIn--;
         }
         // One request of exactly the size of a bookkeeping node may come before the block's own request (the order of the two is the detector's business).
@@ -139,7 +139,7 @@ struct SimHeap {
     }
     void* resize(void* p, size_t n) {
         reallocCalls++;
-        if (failReallocIn == 0) { failReallocIn = -1; armed = false; fired("platform_realloc_null"); return 0; }
+        if (failReallocIn == 0) { failReallocIn = -1; armed = false; firedNull++; fired("platform_realloc_null"); return 0; }
         if (failReallocIn > 0) failReallocIn--;
         if (!p) return alloc(n, false);
         Block* b = findBase(p);
@@ -678,7 +678,7 @@ struct Engine : public vf::Engine {
                 }
                 size_t size = o.c == -1 ? S.size : (size_t)o.c; size_t overhead = GUARD + 8 + sizeof(MemoryLeakDetectorNode);
                 bool tooBig = size > ((size_t)48 << 20) || size > SIZE_MAX - overhead;
-                bool expectNull = HEAP.failReallocIn == 0 || tooBig;
+                bool expectNull = tooBig; HEAP.firedNull = 0;      // an armed platform fault counts once the platform was really asked (which platform calls a reallocation makes is the detector's business)
                 TestMemoryAllocator* fa = S.route == 2 ? modelFor(W, 2) : W.famAllocator[2];
                 int cat = S.tracked ? expectedCategory(W, S, fa) : 0;
                 SimAllocator* nodeFails = 0;
@@ -687,7 +687,8 @@ struct Engine : public vf::Engine {
                 char* np = 0; size_t keep = S.size < size ? S.size : size;
                 if (S.route == 2) np = (char*)cpputest_realloc_location(S.p, size, file, line);
                 else np = det.reallocMemory(fa, S.p, size, file, line, S.route == 1);
-                HEAP.armed = false; HEAP.armedReallocOnly = false; if (HEAP.limitHit) expectNull = true;
+                HEAP.armed = false; HEAP.armedReallocOnly = false; if (HEAP.limitHit || HEAP.firedNull) expectNull = true;
+                if (HEAP.failReallocIn == 0) { HEAP.failReallocIn = -1; probe("realloc_fault_never_asked_for"); }      // this reallocation made no platform realloc call: the fault is dropped rather than left for some later operation
                 if (nodeFails && nodeFails->failNodeIn != 0) expectNull = true;
                 // a request refused for its size alone may be refused before or after the block is looked at: a due misuse report is then optional
                 if (size > SIZE_MAX - 256 && cat != -1 && CTX.reports.empty() && !np) probe("oversize_realloc_refused_before_lookup");
